@@ -105,6 +105,13 @@ class Conv:
             return [0, [1, self.n(st[1]), [self.e(a) for a in st[2]]]]
         if k == 'lcall':
             return [0, [2, self.lf.index(st[1]), [self.e(a) for a in st[2]]]]
+        if k == 'put':
+            mode, v, t = st[1], st[2], st[3]
+            if t[0] == 'loc':
+                return [0, [9, S.PUT_MODE[mode], self.h['locals'].index(t[1]), self.e(v)]]
+            if t[0] == 'field':
+                return [0, [8, S.PUT_MODE[mode], self.e(t[1]), self.e(v)]]
+            raise Unsupported('put target ' + t[0])
         if k == 'exit':
             return [0, [7]]
         if k == 'setmenuprop':
